@@ -277,6 +277,13 @@ func (a *AnySchema) checkAndConvert(data any) (any, error) {
 			if err != nil {
 				return nil, ConstraintErrorAddPathSegment(err, fmt.Sprintf("[%v]", key))
 			}
+			if _, duplicate := result[key]; duplicate {
+				// Two raw keys (for example int(1) and int64(1)) are the same key once converted. Which of their
+				// values survived would depend on the iteration order of the input map.
+				return nil, &ConstraintError{
+					Message: fmt.Sprintf("Duplicate key %v: more than one key of the input converts to it", key),
+				}
+			}
 			result[key] = value
 		}
 		return result, nil
